@@ -449,6 +449,95 @@ def _points(domain, rng, n):
     return out
 
 
+def coincident_elements(levels=(0, 1, 2)):
+    """boundary segments that belong to two shipped polygons with identical end points in the same direction:
+    [((domain_a, x0, x1), (domain_b, x0, x1)), ...] (dyadic sub-intervals of sides)"""
+    import numpy as np
+    by = {}
+    for domain in C08_DOMAINS:
+        curve = curve_of(domain)
+        ps = [float(v) for v in curve.pw_start]
+        for i in range(len(ps) - 1):
+            for lev in levels:
+                n = 2 ** lev
+                for k in range(n):
+                    x0, x1 = ps[i] + (ps[i + 1] - ps[i]) * k / n, ps[i] + (ps[i + 1] - ps[i]) * (k + 1) / n
+                    if x1 - x0 > 1 + 1e-12 and domain == "LShape":
+                        continue                                    # the L-shape's long sides are pre-split
+                    v0 = np.asarray(curve.pw_gamma[i](x0), dtype=float).reshape(-1)
+                    v1 = np.asarray(curve.pw_gamma[i](x1), dtype=float).reshape(-1)
+                    key = tuple(round(float(c), 12) + 0.0 for c in (*v0, *v1))
+                    by.setdefault(key, []).append((domain, x0, x1))
+    out = []
+    for key, items in sorted(by.items()):
+        for a in items:
+            for b in items:
+                if a[0] < b[0]:
+                    out.append((a, b))
+    return out
+
+
+def _c08_sequence_task(seq):
+    """several loads computed one after the other in ONE process (history), each reported like a single case"""
+    return [_c08_task(("linform-vs-closed-form", dom, d, p)) for dom, d, p in seq]
+
+
+def _fresh_process_map(fn, tasks):
+    """every task in its own forked process (no history at all)"""
+    import multiprocessing as mp
+    ctx = mp.get_context("fork")
+    with ctx.Pool(min(_workers(), max(1, len(tasks))), maxtasksperchild=1) as p:
+        return p.map(fn, tasks, 1)
+
+
+def run_c08_interleaved(results, tier, seed):
+    """history clause: operators of two different polygons alive in one process, loads of geometrically coincident boundary segments
+    requested alternately; every load must be the one computed in a process of its own (bitwise) and meet the closed form"""
+    rng = random.Random(77 + seed)
+    pairs = coincident_elements()
+    if not pairs:
+        return 0
+    pairs = _pick(rng, pairs, 12 if tier == "thorough" else 5)
+    seqs = []
+    for (da, a0, a1), (db, b0, b1) in pairs:
+        pa, pb = sorted(closed_form_problems(da))[0], sorted(closed_form_problems(db))[0]
+        slabs = [(0.0, 0.25), (0.5, 0.75)]
+        seq = []
+        for (t0, t1) in slabs:
+            seq += [(da, (t0, t1, a0, a1), pa), (db, (t0, t1, b0, b1), pb)]
+        seq += [(db, (0.0, 0.25, b0, b1), pb), (da, (0.0, 0.25, a0, a1), pa)]
+        seqs.append(seq)
+    with quiet():
+        together = _fresh_process_map(_c08_sequence_task, seqs)
+        flat = [c for seq in seqs for c in seq]
+        uniq = sorted(set(flat))
+        alone = dict(zip(uniq, _fresh_process_map(_c08_task, [("linform-vs-closed-form",) + c for c in uniq])))
+    bad, worst = [], None
+    for seq, outs in zip(seqs, together):
+        for pos, (c, o) in enumerate(zip(seq, outs)):
+            ref = alone[c]
+            same = ("got" in o and "got" in ref and o["got"] == ref["got"])
+            okc = same and o["err"] <= TOL_A
+            if not okc:
+                bad.append(dict(case=list(c), position_in_sequence=pos, sequence=[list(x[:2]) for x in seq], in_sequence=o.get("got"),
+                                alone=ref.get("got"), closed_form=o.get("want"), raised=o.get("raised")))
+    detail = dict(sequences=len(seqs), loads=len(flat), violations=len(bad), first=bad[:3])
+    replay = None
+    if bad:
+        b = bad[0]
+        code = ("from bounded import potential_rel as P\nseq = {seq!r}\nouts = P._c08_sequence_task(seq)\n"
+                "alone = P._fresh_process_map(P._c08_task, [('linform-vs-closed-form',) + tuple(c) for c in seq])\n"
+                "observed = [(o.get('got'), a.get('got'), o.get('want')) for o, a in zip(outs, alone)]\n"
+                "violated = any(o.get('got') != a.get('got') or not (o['err'] <= {tol}) for o, a in zip(outs, alone))\n").format(
+                    seq=[s for s in seqs if [list(x[:2]) for x in s] == b["sequence"]][0], tol=TOL_A)
+        from vlib.replay import run_replay
+        res = run_replay(code, True)
+        replay = dict(code=code, raises_is_violation=True, outcome=res, confirmed=bool(res.get("violated")))
+    results.append(("interleaved-polygons/load-independent-of-earlier-loads-on-another-polygon", not bad, detail, replay))
+    return len(flat) + len(uniq)
+
+
+
 def run_c08(chk, tier, seed, only=None):
     import numpy as np
     par = c08_params(tier)
@@ -546,6 +635,8 @@ def run_c08(chk, tier, seed, only=None):
             replay = _full_replay("C08", "C08/bounded/{}/vector-equals-per-element".format(domain), tier, seed, domain)
         results.append(("{}/vector-equals-per-element".format(domain), ok, detail, replay))
         samples.append(dict(domain=domain, elements=len(descs), meshes=texts, seconds=round(time.time() - t_dom, 1)))
+    if not only:
+        n_eval += run_c08_interleaved(results, tier, seed)
     bound = ("domains UnitSquare/PiSquare/LShape (L-shape long sides pre-split); boundary meshes MeshParametrized + uniform "
              "refinements + seeded random bisections (quick: 4 meshes/domain, thorough: 7), all leaves aspect h_x^2/h_t <= 32, "
              "space intervals dyadic sub-intervals of sides, time grids [0,1] and [0,0.25,1]; (a) linform vs closed-form M0u0 of "
@@ -554,7 +645,8 @@ def run_c08(chk, tier, seed, only=None):
              "(unchanged repo measured <= 1e-7: the pieces are integrated with different domain meshes, so this is quadrature "
              "accuracy, not round-off); (c) linearity rel {c:g} of |a L(f)| + |b L(g)|; (d) evaluate vs closed form for "
              "t >= 0.05 side^2 rel {d:g}, evaluate_mesh on 2-3x uniformly refined domain mesh rel {dm:g}; (e) linform_vector "
-             "== per-element linform bitwise").format(a=TOL_A, b=TOL_B, c=TOL_C, d=TOL_D, dm=TOL_DM)
+             "== per-element linform bitwise; (f) history: loads of coincident boundary segments of two polygons requested alternately in one "
+             "process == the load computed in a process of its own (bitwise), 5 / 12 segment pairs x 6 loads").format(a=TOL_A, b=TOL_B, c=TOL_C, d=TOL_D, dm=TOL_DM)
     _report(chk, "C08", results, n_eval, bound, "one case per (domain, clause); evaluations = element/point cases", samples)
 
 
